@@ -1,15 +1,27 @@
 From SV Require Import Model.ProfileTables Proofs.ProfileTablesProofs Model.FrameTables.
 From Coq Require Import NArith Lia.
 
+Lemma onat_eqb_spec a b : onat_eqb a b = true <-> a = b.
+Proof. destruct a, b; cbn; rewrite ?Nat.eqb_eq; split; intros H; try discriminate; try reflexivity; [subst; reflexivity | inversion H; reflexivity]. Qed.
+Lemma oN_eqb_spec a b : oN_eqb a b = true <-> a = b.
+Proof. destruct a, b; cbn; rewrite ?N.eqb_eq; split; intros H; try discriminate; try reflexivity; [subst; reflexivity | inversion H; reflexivity]. Qed.
+Lemma natinfo_eqb_spec a b : natinfo_eqb a b = true <-> a = b.
+Proof.
+  destruct a, b. unfold natinfo_eqb. cbn. rewrite !andb_true_iff, Nat.eqb_eq, !N.eqb_eq, onat_eqb_spec.
+  split; [intros [[[-> ->] ->] ->]; reflexivity | intros H; inversion H; auto].
+Qed.
 Lemma fkey_eqb_spec a b : fkey_eqb a b = true <-> a = b.
 Proof.
-  destruct a as [n [[[l r] [x|]]|]], b as [n' [[[l' r'] [x'|]]|]]; unfold fkey_eqb; cbn [fst snd]; rewrite ?andb_true_iff, ?Nat.eqb_eq, ?N.eqb_eq;
-    (split; [intros H; repeat match goal with H : _ /\ _ |- _ => destruct H end; subst; try discriminate; reflexivity | intros H; inversion H; subst; auto]).
+  destruct a as [n v f l c], b as [n' v' f' l' c']. unfold fkey_eqb. cbn.
+  rewrite !andb_true_iff, Nat.eqb_eq, onat_eqb_spec, !oN_eqb_spec.
+  split.
+  - intros [[[[-> Hv] ->] ->] ->]. destruct v as [x|], v' as [y|]; try discriminate; [apply natinfo_eqb_spec in Hv; subst|]; reflexivity.
+  - intros H. inversion H; subst. repeat split. destruct v' as [y|]; [apply natinfo_eqb_spec|]; reflexivity.
 Qed.
 Lemma funckey_eqb_spec a b : funckey_eqb a b = true <-> a = b.
 Proof.
-  destruct a as [n [l|]], b as [n' [l'|]]; unfold funckey_eqb; cbn [fst snd]; rewrite ?andb_true_iff, ?Nat.eqb_eq;
-    (split; [intros H; repeat match goal with H : _ /\ _ |- _ => destruct H end; subst; try discriminate; reflexivity | intros H; inversion H; subst; auto]).
+  destruct a, b. unfold funckey_eqb. cbn. rewrite !andb_true_iff, Nat.eqb_eq, !onat_eqb_spec.
+  split; [intros [[-> ->] ->]; reflexivity | intros H; inversion H; auto].
 Qed.
 Lemma ns_key_eqb_spec a b : ns_key_eqb a b = true <-> a = b.
 Proof. destruct a, b. unfold ns_key_eqb. cbn [fst snd]. rewrite andb_true_iff, Nat.eqb_eq, N.eqb_eq. split; [intros [-> ->]; reflexivity | intros H; inversion H; auto]. Qed.
@@ -43,6 +55,7 @@ Proof.
   - exact (w_res_lib n t W).
   - intros x Hx. pose proof (w_res_name n t W x Hx). lia.
   - intros x Hx. pose proof (w_func_name n t W x Hx). lia.
+  - intros x f Hx Hf. pose proof (w_func_file n t W x f Hx Hf). lia.
   - exact (w_func_res n t W).
   - intros x Hx. pose proof (w_frame_name n t W x Hx). lia.
   - exact (w_frame_func n t W).
@@ -81,6 +94,7 @@ Proof.
     + intros l Hin. apply in_app_or in Hin. destruct Hin as [Hin|[<-|[]]]; [exact (w_res_lib n t1 W1 l Hin) | exact Hl].
     + intros x Hin. apply in_app_or in Hin. destruct Hin as [Hin|[<-|[]]]; [exact (w_res_name n t1 W1 x Hin) | exact I1].
     + exact (w_func_name n t1 W1).
+    + exact (w_func_file n t1 W1).
     + intros r Hin. pose proof (w_func_res n t1 W1 r Hin). rewrite app_length. lia.
     + exact (w_frame_name n t1 W1).
     + exact (w_frame_func n t1 W1).
@@ -89,16 +103,17 @@ Proof.
     + exact (w_frame_ns n t1 W1).
 Qed.
 
-Lemma func_for_wf n t k libname : tt_wf n t -> fst k < length (tt_strings t) -> (forall l, snd k = Some l -> l < n) ->
+Lemma func_for_wf n t k libname : tt_wf n t -> fu_name k < length (tt_strings t) -> (forall f, fu_file k = Some f -> f < length (tt_strings t)) ->
+  (forall l, fu_lib k = Some l -> l < n) ->
   tt_wf n (snd (func_for t k libname)) /\ fst (func_for t k libname) < length (tt_funcs (snd (func_for t k libname))) /\
   grows t (snd (func_for t k libname)) /\ tt_frames (snd (func_for t k libname)) = tt_frames t /\ tt_ns (snd (func_for t k libname)) = tt_ns t.
 Proof.
-  intros W Hk Hl. unfold func_for. destruct (index_of funckey_eqb k (tt_funcs t)) as [i|] eqn:E.
+  intros W Hk Hf Hl. unfold func_for. destruct (index_of funckey_eqb k (tt_funcs t)) as [i|] eqn:E.
   - cbn [fst snd]. split; [exact W|]. split; [eapply index_of_lt; [apply funckey_eqb_spec | exact E]|]. split; [apply grows_refl | auto].
-  - assert (Step : exists res t1, (match snd k with Some lib => let '(r, t') := resource_for_lib t lib libname in (Some r, t') | None => (None, t) end) = (res, t1) /\
+  - assert (Step : exists res t1, (match fu_lib k with Some lib => let '(r, t') := resource_for_lib t lib libname in (Some r, t') | None => (None, t) end) = (res, t1) /\
                    tt_wf n t1 /\ grows t t1 /\ tt_frames t1 = tt_frames t /\ tt_funcs t1 = tt_funcs t /\ tt_ns t1 = tt_ns t /\
                    (forall r, res = Some r -> r < length (tt_res_lib t1))).
-    { destruct (snd k) as [lib|] eqn:Ek.
+    { destruct (fu_lib k) as [lib|] eqn:Ek.
       - destruct (resource_for_lib t lib libname) as [r t1] eqn:E1.
         pose proof (resource_for_lib_wf n t lib libname W (Hl lib eq_refl)) as [W1 [I1 [G1 [Fr1 [F1 Ns1]]]]]. rewrite E1 in *. cbn [fst snd] in *.
         exists (Some r), t1. refine (conj eq_refl (conj W1 (conj G1 (conj Fr1 (conj F1 (conj Ns1 _)))))). intros r0 Hr; inversion Hr; subst; exact I1.
@@ -113,6 +128,7 @@ Proof.
     + exact (w_res_lib n t1 W1).
     + exact (w_res_name n t1 W1).
     + intros x Hin. apply in_app_or in Hin. destruct Hin as [Hin|[<-|[]]]; [exact (w_func_name n t1 W1 x Hin) | destruct G1; lia].
+    + intros x f Hin Hxf. apply in_app_or in Hin. destruct Hin as [Hin|[<-|[]]]; [exact (w_func_file n t1 W1 x f Hin Hxf) | specialize (Hf f Hxf); destruct G1; lia].
     + intros r Hin. apply in_app_or in Hin. destruct Hin as [Hin|[Hx|[]]]; [exact (w_func_res n t1 W1 r Hin) | apply Hres; exact Hx].
     + exact (w_frame_name n t1 W1).
     + intros f Hin. pose proof (w_frame_func n t1 W1 f Hin). rewrite app_length. lia.
@@ -121,16 +137,18 @@ Proof.
     + exact (w_frame_ns n t1 W1).
 Qed.
 
-Lemma frame_for_wf n t k libname : tt_wf n t -> fst k < length (tt_strings t) ->
-  (forall l r ns, snd k = Some (l, r, ns) -> l < n) -> (forall l r i, snd k = Some (l, r, Some i) -> i < length (tt_ns t)) ->
+Lemma frame_for_wf n t k libname : tt_wf n t -> fk_name k < length (tt_strings t) ->
+  (forall f, fk_file k = Some f -> f < length (tt_strings t)) ->
+  (forall ni, fk_native k = Some ni -> ni_lib ni < n) -> (forall ni i, fk_native k = Some ni -> ni_ns ni = Some i -> i < length (tt_ns t)) ->
   tt_wf n (snd (frame_for t k libname)) /\ fst (frame_for t k libname) < length (tt_frames (snd (frame_for t k libname))).
 Proof.
-  intros W Hk Hl Hns. unfold frame_for. destruct (index_of fkey_eqb k (tt_frames t)) as [i|] eqn:E.
+  intros W Hk Hf Hl Hns. unfold frame_for. destruct (index_of fkey_eqb k (tt_frames t)) as [i|] eqn:E.
   - cbn [fst snd]. split; [exact W | eapply index_of_lt; [apply fkey_eqb_spec | exact E]].
-  - destruct (func_for t (fst k, option_map (fun x => fst (fst x)) (snd k)) libname) as [f t1] eqn:E1.
-    assert (Hl' : forall l, snd (fst k, option_map (fun x => fst (fst x)) (snd k)) = Some l -> l < n).
-    { intros l H. cbn in H. destruct (snd k) as [[[l' r] ns]|] eqn:Ek; cbn in H; [inversion H; subst; eapply Hl; reflexivity | discriminate]. }
-    pose proof (func_for_wf n t (fst k, option_map (fun x => fst (fst x)) (snd k)) libname W Hk Hl') as [W1 [I1 [G1 [Fr1 Ns1]]]]. rewrite E1 in *. cbn [fst snd] in *.
+  - set (fu := mkFu (fk_name k) (fk_file k) (option_map ni_lib (fk_native k))).
+    destruct (func_for t fu libname) as [f t1] eqn:E1.
+    assert (Hl' : forall l, fu_lib fu = Some l -> l < n).
+    { intros l H. cbn in H. destruct (fk_native k) as [ni|] eqn:Ek; cbn in H; [inversion H; subst; apply Hl; reflexivity | discriminate]. }
+    pose proof (func_for_wf n t fu libname W Hk Hf Hl') as [W1 [I1 [G1 [Fr1 Ns1]]]]. rewrite E1 in *. cbn [fst snd] in *.
     cbn [fst snd tt_frames]. split; [|rewrite app_length; cbn; lia].
     constructor; cbn [tt_strings tt_res_lib tt_res_name tt_funcs tt_func_res tt_frames tt_frame_func tt_ns tt_ns_name].
     + exact (w_res_len n t1 W1).
@@ -140,13 +158,14 @@ Proof.
     + exact (w_res_lib n t1 W1).
     + exact (w_res_name n t1 W1).
     + exact (w_func_name n t1 W1).
+    + exact (w_func_file n t1 W1).
     + exact (w_func_res n t1 W1).
     + intros x Hin. apply in_app_or in Hin. destruct Hin as [Hin|[<-|[]]]; [exact (w_frame_name n t1 W1 x Hin) | destruct G1; lia].
     + intros x Hin. apply in_app_or in Hin. destruct Hin as [Hin|[<-|[]]]; [exact (w_frame_func n t1 W1 x Hin) | exact I1].
     + exact (w_ns_lib n t1 W1).
     + exact (w_ns_name n t1 W1).
-    + intros nm l r i Hin. apply in_app_or in Hin. destruct Hin as [Hin|[Hx|[]]]; [exact (w_frame_ns n t1 W1 nm l r i Hin)|].
-      rewrite Ns1. destruct k as [kn ks]. cbn [fst snd] in *. inversion Hx; subst. eapply Hns. reflexivity.
+    + intros k0 ni i Hin Hni Hi. apply in_app_or in Hin. destruct Hin as [Hin|[<-|[]]]; [exact (w_frame_ns n t1 W1 k0 ni i Hin Hni Hi)|].
+      rewrite Ns1. exact (Hns ni i Hni Hi).
 Qed.
 
 Lemma native_symbol_for_wf n t lib addr symname : tt_wf n t -> lib < n ->
@@ -166,29 +185,69 @@ Proof.
     + exact (w_res_lib n t1 W1).
     + exact (w_res_name n t1 W1).
     + exact (w_func_name n t1 W1).
+    + exact (w_func_file n t1 W1).
     + exact (w_func_res n t1 W1).
     + exact (w_frame_name n t1 W1).
     + exact (w_frame_func n t1 W1).
     + intros k Hin. apply in_app_or in Hin. destruct Hin as [Hin|[<-|[]]]; [exact (w_ns_lib n t1 W1 k Hin) | exact Hl].
     + intros x Hin. apply in_app_or in Hin. destruct Hin as [Hin|[<-|[]]]; [exact (w_ns_name n t1 W1 x Hin) | exact I1].
-    + intros nm0 l r i Hin. pose proof (w_frame_ns n t1 W1 nm0 l r i Hin). rewrite app_length. lia.
+    + intros k0 ni i Hin Hni Hi. pose proof (w_frame_ns n t1 W1 k0 ni i Hin Hni Hi). rewrite app_length. lia.
 Qed.
 
 Lemma tt_empty_wf n : tt_wf n tt_empty.
 Proof. constructor; cbn; auto; intros; contradiction. Qed.
 
+Lemma intern_opt_wf n t s : tt_wf n t ->
+  let r := intern_opt t s in
+  tt_wf n (snd r) /\ (forall f, fst r = Some f -> f < length (tt_strings (snd r))) /\ grows t (snd r) /\
+  tt_ns (snd r) = tt_ns t /\ tt_ns_name (snd r) = tt_ns_name t.
+Proof.
+  intros W. unfold intern_opt. destruct s as [x|].
+  - destruct (intern_string t x) as [i t1] eqn:E. pose proof (intern_string_wf n t x W) as [W1 [I1 [G1 [_ [Ns1 [Nn1 _]]]]]]. rewrite E in *. cbn [fst snd] in *.
+    refine (conj W1 (conj _ (conj G1 (conj Ns1 Nn1)))). intros f Hf. inversion Hf; subst. exact I1.
+  - cbn. refine (conj W (conj _ (conj (grows_refl t) (conj eq_refl eq_refl)))). discriminate.
+Qed.
+
 Lemma do_req_wf n t r : tt_wf n t -> req_ok n r -> tt_wf n (do_req t r).
 Proof.
-  intros W Hr. destruct r as [s | name | lib rel hexname libname | lib rel symaddr symname libname]; cbn [do_req].
+  intros W Hr.
+  destruct r as [s | name | name file line col | lib rel hexname libname | lib rel symaddr symname libname | lib symaddr symname
+                 | addr hexname nslib nsaddr name file line col depth libname]; cbn [do_req].
   - apply intern_string_wf. exact W.
   - destruct (intern_string t name) as [i t1] eqn:E. pose proof (intern_string_wf n t name W) as [W1 [I1 _]]. rewrite E in *. cbn [fst snd] in *.
-    apply frame_for_wf; [exact W1 | exact I1 | intros l r ns H; discriminate | intros l r i0 H; discriminate].
+    apply frame_for_wf; cbn; [exact W1 | exact I1 | discriminate | discriminate | discriminate].
+  - destruct (intern_string t name) as [i t1] eqn:E. pose proof (intern_string_wf n t name W) as [W1 [I1 [G1 _]]]. rewrite E in *. cbn [fst snd] in *.
+    destruct (intern_opt t1 file) as [f t2] eqn:E2. pose proof (intern_opt_wf n t1 file W1) as [W2 [I2 [G2 _]]]. rewrite E2 in *. cbn [fst snd] in *.
+    apply frame_for_wf; cbn; [exact W2 | destruct G2; lia | exact I2 | discriminate | discriminate].
   - destruct (intern_string t hexname) as [i t1] eqn:E. pose proof (intern_string_wf n t hexname W) as [W1 [I1 _]]. rewrite E in *. cbn [fst snd] in *.
-    apply frame_for_wf; [exact W1 | exact I1 | intros l r ns H; inversion H; subst; exact Hr | intros l r i0 H; discriminate].
+    apply frame_for_wf; cbn; [exact W1 | exact I1 | discriminate | intros ni H; inversion H; subst; exact Hr | intros ni i0 H H2; inversion H; subst; discriminate].
   - destruct (native_symbol_for t lib symaddr symname) as [ns t1] eqn:E.
     pose proof (native_symbol_for_wf n t lib symaddr symname W Hr) as [W1 [I1 _]]. rewrite E in *. cbn [fst snd] in *.
-    apply frame_for_wf; [exact W1 | | intros l r x H; inversion H; subst; exact Hr | intros l r i H; inversion H; subst; exact I1].
-    cbn [fst]. apply (w_ns_name n t1 W1). apply nth_In. rewrite (w_ns_len n t1 W1). exact I1.
+    apply frame_for_wf; cbn; [exact W1 | | discriminate | intros ni H; inversion H; subst; exact Hr | intros ni i H H2; inversion H; subst; inversion H2; subst; exact I1].
+    apply (w_ns_name n t1 W1). apply nth_In. rewrite (w_ns_len n t1 W1). exact I1.
+  - apply native_symbol_for_wf; assumption.
+  - destruct (index_of ns_key_eqb (nslib, nsaddr) (tt_ns t)) as [ns|] eqn:En; [|exact W].
+    assert (Ins : ns < length (tt_ns t)) by (eapply index_of_lt; [apply ns_key_eqb_spec | exact En]).
+    destruct (intern_opt t name) as [nm t1] eqn:E1. pose proof (intern_opt_wf n t name W) as [W1 [I1 [G1 [Ns1 Nn1]]]]. rewrite E1 in *. cbn [fst snd] in *.
+    assert (Step : exists variant nn t2,
+               (match addr with
+                | None => match nm with Some i => (None, i, t1) | None => let '(i, t') := intern_string t1 hexname in (None, i, t') end
+                | Some (lib, rel) => (Some (mkNI lib rel (Some ns) depth), match nm with Some i => i | None => nth ns (tt_ns_name t1) 0 end, t1)
+                end) = (variant, nn, t2) /\
+               tt_wf n t2 /\ nn < length (tt_strings t2) /\ tt_ns t2 = tt_ns t /\
+               (forall ni, variant = Some ni -> ni_lib ni < n /\ ni_ns ni = Some ns)).
+    { destruct addr as [[lib rel]|].
+      - eexists _, _, _. split; [reflexivity|]. split; [exact W1|]. split; [|split; [exact Ns1|]].
+        + destruct nm as [i|]; [apply I1; reflexivity|]. apply (w_ns_name n t1 W1). apply nth_In. rewrite (w_ns_len n t1 W1), Ns1. exact Ins.
+        + intros ni H. inversion H; subst. split; [exact Hr|reflexivity].
+      - destruct nm as [i|].
+        + eexists _, _, _. split; [reflexivity|]. split; [exact W1|]. split; [apply I1; reflexivity|]. split; [exact Ns1|discriminate].
+        + destruct (intern_string t1 hexname) as [i t'] eqn:E2. pose proof (intern_string_wf n t1 hexname W1) as [W2 [I2 [_ [_ [Ns2 _]]]]]. rewrite E2 in *. cbn [fst snd] in *.
+          eexists _, _, _. split; [reflexivity|]. split; [exact W2|]. split; [exact I2|]. split; [congruence|discriminate]. }
+    destruct Step as (variant & nn & t2 & Es & W2 & I2 & Ns2 & Hv). rewrite Es.
+    destruct (intern_opt t2 file) as [f t3] eqn:E3. pose proof (intern_opt_wf n t2 file W2) as [W3 [I3 [G3 [Ns3 _]]]]. rewrite E3 in *. cbn [fst snd] in *.
+    apply frame_for_wf; cbn; [exact W3 | destruct G3; lia | exact I3 | intros ni H; apply (Hv ni H) |].
+    intros ni i H H2. destruct (Hv ni H) as [_ H3]. rewrite H3 in H2. inversion H2; subst. rewrite Ns3, Ns2. exact Ins.
 Qed.
 
 Theorem run_reqs_wf n rs : Forall (req_ok n) rs -> tt_wf n (run_reqs rs).
